@@ -39,6 +39,8 @@ def main():
     checks = []
     for pid in sorted(claimed):
         c = claimed[pid]
+        if c["note"] == "R":
+            c = dict(c, note=NOTE_R)
         checks.append({
             "property_id": pid,
             "quick_cmd": "./check %s --tier quick" % pid,
